@@ -230,7 +230,9 @@ func (c *Case) budget() time.Duration {
 		return 20 * time.Second
 	}
 
-	return time.Duration(total) * 25 * time.Duration(c.ReadDelayNS)
+	// ... plus a fixed allowance per byte: the budget must not encode the implementation's polling
+	// cadence (a library that pauses a millisecond between reads is as correct)
+	return time.Duration(total) * (25*time.Duration(c.ReadDelayNS) + 3*time.Millisecond)
 }
 
 func (c *Case) promptRaw() string {
